@@ -1148,12 +1148,17 @@ impl ConfigState {
                 .map_err(|decode_error| StateError::RemoveCertificate(decode_error.to_string()))?,
         );
 
-        if let Some(index) = self.certificates.get_mut(&remove.address.into()) {
+        let address: SocketAddr = remove.address.into();
+        if let Some(index) = self.certificates.get_mut(&address) {
             index.remove(&fingerprint);
             debug_assert!(
                 !index.contains_key(&fingerprint),
                 "remove_certificate must evict the fingerprint when the address is known"
             );
+            // an emptied bucket is dropped: generate_requests cannot recreate it
+            if index.is_empty() {
+                self.certificates.remove(&address);
+            }
         }
 
         Ok(())
@@ -1299,6 +1304,10 @@ impl ConfigState {
             !tcp_frontends.iter().any(|f| f.address == remove_address),
             "remove_tcp_frontend must leave no frontend at the removed address"
         );
+        // an emptied bucket is dropped: generate_requests cannot recreate it
+        if tcp_frontends.is_empty() {
+            self.tcp_fronts.remove(&front_to_remove.cluster_id);
+        }
         Ok(())
     }
 
@@ -1337,6 +1346,10 @@ impl ConfigState {
         udp_frontends.retain(|front| front.address != front_to_remove.address.into());
         if udp_frontends.len() == len {
             return Err(StateError::NoChange);
+        }
+        // an emptied bucket is dropped: generate_requests cannot recreate it
+        if udp_frontends.is_empty() {
+            self.udp_fronts.remove(&front_to_remove.cluster_id);
         }
         Ok(())
     }
@@ -1413,6 +1426,10 @@ impl ConfigState {
                 .any(|b| b.backend_id == backend.backend_id && b.address == remove_address),
             "remove_backend must leave no backend matching (backend_id, address)"
         );
+        // an emptied bucket is dropped: generate_requests cannot recreate it
+        if backend_list.is_empty() {
+            self.backends.remove(&backend.cluster_id);
+        }
         Ok(())
     }
 
